@@ -563,16 +563,19 @@ def judge_history(ctx, case, rec, rep):
             if not a.size:
                 continue
             sharing = sorted(i for i, t in arr_by_id.items() if shares(a, t))
+            # Only aliasing the model does NOT predict can threaten the property (a later write through the result
+            # would reach a tracked array).  Sharing LESS than predicted (a defensive copy instead of a view) and
+            # stored-vs-computed (caching) are implementation choices the property does not talk about.
             if slot == "c":
-                if stored or sharing:
+                if sharing:
                     mism.append(f"step {k} ({st['proto']}) slot {key}: model: computed on access; observed stored={stored} aliases={sharing}")
             else:
                 sid = int(slot[1:])
                 if sid in arr_by_id:
-                    if sharing != [sid] or stored is False:
+                    if not set(sharing) <= {sid}:
                         mism.append(f"step {k} ({st['proto']}) slot {key}: model: alias of array {sid}; observed stored={stored} aliases={sharing}")
                 else:
-                    if sharing or stored is False:
+                    if sharing:
                         mism.append(f"step {k} ({st['proto']}) slot {key}: model: new stored array; observed stored={stored} aliases={sharing}")
                     new_ids[sid] = a
         arr_by_id.update(new_ids)
